@@ -8,6 +8,8 @@ SPEC = {
     "proof_targets": ["Base/Utf8Proofs.vo", "Compiler/AccountingProofs.vo", "Parser/MachineProofs.vo"],
     "assumptions": [
         "panics, stack exhaustion, hangs and the rendering of diagnostics (Display, Debug, JSON, labels and patches) are run-time facts: they are observed per generated input in a child process (512 MiB stack thread, 30 s per case), not proved",
+        "every observation is made under a matrix of compiler configurations: default, relaxed_re_syntax, error_on_slow_pattern+error_on_slow_loop, linters (rule name, allowed tags, required metadata), ignore_module+ban_module, condition_optimization+colours+narrow width+max_warnings; each generated source runs under the default and two others",
+        "that an aborted rule carries an error is tied to the code by two regenerated obligations: cst2ast.rs has exactly one Abort site that neither follows an ERROR node nor an errors.push (Builder::begin's kind test), and the digest of (grammar productions, per-builder-function begin/end/expect/peek/call sequence) equals the reviewed pin in Compiler/CstAgreement.v; a change of either side must be reviewed and re-pinned",
         "rule accounting is proved over a model whose arms (build_ast's Ok/Abort/MaxDepthReached arms, c_items' Err arm, c_rule's tolerated-error arms) are regenerated from the source; that an aborted rule carries at least one error is a hypothesis of ast_no_rule_lost, evaluated by S on every input (accepted without errors => every declared rule is built or ignored)",
         "the UTF-8 model follows the maximal-subpart rule of std::str::from_utf8; the compiler uses bstr::to_str, which K compares through the span of the reported E032 label",
         "parser totality (no engine assert fires, the interpreter is structurally recursive) is the C10 theorem lossless_balanced over Parser/Machine.v",
@@ -21,7 +23,9 @@ RULE = ("every case runs Compiler::new().add_source(bytes), Display/title/labels
         "inserted at a random position / at every position / at the very end of a small valid rule, semantically wrong rules, huge literals, "
         "syntax errors on long (> 15 bytes) tokens holding 2-4-byte characters at varied offsets, out-of-range and KB/MB-suffixed integer "
         "literals in every literal position (xor bounds, hex jumps, base64 alphabets, ranges, percentages, indexes, meta), warnings whose "
-        "fix spans several lines. Non-trivial: >= 10 bytes; "
+        "fix spans several lines, regexps that relaxed_re_syntax repairs (literal braces, unknown escapes) followed by a genuine error "
+        "with multi-byte characters around, and a systematic sweep: every token of 15 small rules covering every production, deleted "
+        "and duplicated in turn. Every generated source runs under 3 of 6 compiler configurations. Non-trivial: >= 10 bytes; "
         "distinct by source bytes.")
 
 
@@ -34,11 +38,13 @@ def classify(case):
             return "C09:no-answer-in-time:huge-fixed-hex-jump"
         return "C09:no-answer-in-time"
     if o.get("panicked"):
-        msg = re.sub(r"\b\d+\b", "N", o["panicked"])[:120]
+        msg = re.sub(r"\b\d+\b", "N", o["panicked"]).split(";")[0][:120]
         return "C09:panic:" + msg
     v = " ".join(case.get("violations", []))
     if "neither built nor ignored" in v:
         return "C09:rule-dropped-silently:" + ("ast-depth-limit" if o.get("max_depth", 0) >= 3000 else "other")
+    if "invalid regular expression" in v:
+        return "C09:regexp-error-location-outside-the-regexp:" + str(case.get("cfg_name"))
     if "label span" in v:
         return "C09:label-span"
     if "rendered" in v:
@@ -49,7 +55,7 @@ def classify(case):
 
 
 def run_k(run, tier, seed, drv):
-    n = 800 if tier == "quick" else 8000
+    n = 500 if tier == "quick" else 5000
     nest = 150 if tier == "quick" else 1500
     info = standard_k(run, drv, "C09", "c09", ["--seed", seed, "--n", n, "--max-nest", nest],
                       "K_C09_utf8_span_and_rule_accounting", classify)
@@ -62,7 +68,7 @@ def replay(d, drv):
     hx = case.get("source_hex")
     if not hx:
         print(json.dumps(d, indent=1)[:4000]); return 0
-    rc, out, _ = run_harness(drv, "c09", ["--replay-hex", hx, "--out", os.path.join(drv.CACHE, "cases", "C09-replay")])
+    rc, out, _ = run_harness(drv, "c09", ["--replay-hex", hx, "--cfg", case.get("cfg", 0), "--out", os.path.join(drv.CACHE, "cases", "C09-replay")])
     print(out[-4000:])
     return 1 if "VIOLATED" in out else 0
 
